@@ -282,6 +282,20 @@ def term_case(chk, rng, pool, items1, items2=None, exhaustive=False):
         {"k": "eqn", "e": ["eqhash", V("t1"), V("n1")]},
         {"k": "eqp", "e": ["eqhash", V("t1"), T(perm)]},
         {"k": "np", "e": M(T(perm), "normalized")},
+        # results of different operations that denote the same term
+        {"k": "h.rec-pow", "e": ["eqhash", M(V("t1"), "reciprocal"),
+                                 OP("**", V("t1"), ["i", -1])]},
+        {"k": "h.rec-rdiv", "e": ["eqhash", M(V("t1"), "reciprocal"),
+                                  OP("/", ["i", 1], V("t1"))]},
+        {"k": "h.mul-comm", "e": ["eqhash", OP("*", V("t1"), V("t2")),
+                                  OP("*", V("t2"), V("t1"))]},
+        {"k": "h.scalar-comm", "e": ["eqhash", OP("*", ke, V("t1")),
+                                     OP("*", V("t1"), ke)]},
+        {"k": "h.div-rec", "e": ["eqhash", OP("/", V("t1"), V("t2")),
+                                 M(OP("/", V("t2"), V("t1")),
+                                   "reciprocal")]},
+        {"k": "h.pow-mul", "e": ["eqhash", OP("**", V("t1"), ["i", 2]),
+                                 OP("*", V("t1"), V("t1"))]},
     ]
     m1, m2 = model_items(items1), model_items(items2)
     d1, d2 = den_items(m1, dens), den_items(m2, dens)
@@ -376,6 +390,10 @@ def term_case(chk, rng, pool, items1, items2=None, exhaustive=False):
         expect_eq("eqh", d1 == d2, "t1 == t2")
         expect_eq("eqn", True, "t1 == t1.normalized()")
         expect_eq("eqp", True, "t1 == Term(same items, other order)")
+        for hk in ("h.rec-pow", "h.rec-rdiv", "h.mul-comm", "h.scalar-comm",
+                   "h.div-rec", "h.pow-mul"):
+            expect_eq(hk, True, "equal results (%s)" % hk[2:])
+            chk.count("equal operation results compared")
         if d1 == d2 and m1 != m2:
             chk.count("equal pairs with different items")
         if bad:
@@ -407,7 +425,8 @@ def run(chk, R, tier, seed):
               "purely numeric term with exponent != 1",
               "convertible pair merged", "nested definition depth >= 2",
               "pool|harness", "pool|units",
-              "equal pairs with different items"):
+              "equal pairs with different items",
+              "equal operation results compared"):
         chk.require(c)
     hnames = [n for n, *_ in POOL]
     unames = list(UNIT_DEN)
